@@ -507,8 +507,16 @@ func runC19(r *Run, stratum string) *Violation {
 			// let the checkpoint ticker fire, serve what is in flight, then judge the stored position
 			for i := 0; i < 30 && l.getPhase() == 1; i++ {
 				r.Settle()
-				for _, rc := range l.ready() {
-					rc.node.Step(rc.ss)
+				for j := 0; j < 4000 && l.getPhase() == 1; j++ {
+					rs := l.ready()
+					if len(rs) == 0 {
+						break
+					}
+					for _, rc := range rs {
+						rc.node.Step(rc.ss)
+					}
+					r.Settle()
+					scan()
 				}
 				scan()
 				r.Advance(cfg.CpTicker + cfg.BatchTicker + 50*time.Millisecond)
@@ -590,8 +598,19 @@ func runC19(r *Run, stratum string) *Violation {
 			l.start()
 			continue
 		}
-		for _, rc := range l.ready() {
-			rc.node.Step(rc.ss)
+		// serve everything the nodes hold (a blocking sender writes a whole batch in one go: dozens of requests on one
+		// connection; one request per connection and round left a long batch unfinished when the rounds ran out - a
+		// false C19.lost in the thorough tier, 1 of 344413 runs)
+		for j := 0; j < 4000 && viol == nil && l.getPhase() != 2; j++ {
+			rs := l.ready()
+			if len(rs) == 0 {
+				break
+			}
+			for _, rc := range rs {
+				rc.node.Step(rc.ss)
+			}
+			r.Settle()
+			scan()
 		}
 		if rem := l.remaining(); rem > 0 {
 			l.feed(rem)
